@@ -213,7 +213,7 @@ def flows(ctx, n_ds, quick):
         geoms = [g for g in geometries(rng, polys, 4) if g[0] != 'miss']
         rng.shuffle(geoms)
         # meshes always meet the region that leaves out one cell in the middle (a face dropped with all its nodes kept)
-        geoms.sort(key=lambda g: 0 if (fam == 'ugrid' and g[0] == 'around_one_cell') else 1)
+        geoms.sort(key=lambda g: 0 if (fam == 'ugrid' and g[0] == 'around_one_cell') else (1 if (fam == 'ugrid' and g[0] == 'two_cells_apart') else 2))
         if fam == 'ugrid' and len(polys) == 4 and d.spec.get('start_index') == 1:
             # the nine-node mesh is also clipped to a region that keeps all of it
             geoms.sort(key=lambda g: 0 if g[0] == 'cover' else 1)
